@@ -1,3 +1,345 @@
-/- C20: property theorems (stub — not built yet) -/
+import RSVerif.Model.Supervisor
+import RSVerif.Lemmas.Supervisor
+/-
+C20 — Source re-discovery selects a node that really is the master.
+
+All theorems quantify over every known-node list `s` (`Source` + `Slaves`, duplicates allowed), every fault
+sequence `out : attempt → position → Probe` (what the probe of the node at that position yields in that
+attempt: connect error, command error, or an arbitrary INFO text), and — where it says `code` — over both
+variants of the loop body (as pinned / with fixes/C20-displaced-master.patch). `k` is the number of attempts
+made, so `out (k - 1)` is the attempt that returned. Termination is by construction: `recursiveGetSlotState`
+is structurally recursive on the retry depth (the back-off sleeps are not modelled).
+Helper lemmas live in RSVerif.Lemmas.Supervisor.
+-/
 namespace RSVerif.Properties.C20
+open RSVerif RSVerif.Supervisor RSVerif.Spec.Supervisor RSVerif.Lemmas.Supervisor
+
+/-! ### 1. Facts re-extracted from the source on every run -/
+
+/-- the retry depth `New` configures is not negative (a negative Go `int` would never meet `== 0`) -/
+theorem maxRetries_nonneg : 0 ≤ Generated.Supervisor.maxRetries := by decide
+
+/-- … so the `Nat` depth the model recurses on is the extracted Go `int`, not a truncation of it -/
+theorem maxRetries_faithful : (maxRetries : Int) = Generated.Supervisor.maxRetries := by decide
+
+/-- both patterns have a shape the model interprets (`^literal` or `literal`) -/
+theorem regex_shapes_supported :
+    regexSupported Generated.Supervisor.masterRegex = true ∧
+    regexSupported Generated.Supervisor.slaveRegex = true := by decide
+
+/-- … and they are exactly `^role:master` and `^role:slave` -/
+theorem regexes_are_role_prefixes :
+    Generated.Supervisor.masterRegex = 94 :: masterLine ∧
+    Generated.Supervisor.slaveRegex = 94 :: slaveLine := by decide
+
+/-! ### 2. Role parsing as coded equals the role the INFO text reports -/
+
+/-- `getRedisNodeState` (split on LF, first line matching `masterRegex`, else `slaveRegex`; otherwise an
+error) concludes, for every probe outcome and every text, what the spec's byte scan says. -/
+theorem getRedisNodeState_eq_spec (p : Probe) : getRedisNodeState p = nodeState p := by
+  unfold getRedisNodeState
+  rw [regexes_are_role_prefixes.1, regexes_are_role_prefixes.2]
+  cases p with
+  | connErr => rfl
+  | cmdErr => rfl
+  | info text =>
+    simp only [getRedisNodeStateWith, nodeState, reportedRole, (scan_eq text).1]
+    cases roleFrom true text <;> rfl
+
+theorem getRedisNodeState_fun : getRedisNodeState = nodeState := funext getRedisNodeState_eq_spec
+
+/-- what the driver prints (the loop run with the spec's reading of each probe) is the model of the code -/
+theorem driver_prediction_is_model (code : Code) (s : SyncNode) (out : Nat → Nat → Probe) :
+    getSlotStateWith code nodeState s out = getSlotState code s out := by
+  rw [getSlotState, getRedisNodeState_fun]
+
+/-- master answer ⇔ the code's `isMaster && err == nil` -/
+theorem answer_master_iff (p : Probe) : answer p = .master ↔ getRedisNodeState p = .ok true := by
+  rw [getRedisNodeState_eq_spec]
+  unfold answer
+  cases h : nodeState p with
+  | error e => simp
+  | ok b => cases b <;> simp
+
+/-- faulty nodes (unreachable, command error, no role line) are never taken for masters, nor are replicas -/
+theorem faulty_or_replica_not_master (p : Probe) :
+    (p = .connErr ∨ p = .cmdErr ∨ (∃ t, p = .info t ∧ reportedRole t ≠ some true)) →
+      getRedisNodeState p ≠ .ok true := by
+  rw [getRedisNodeState_eq_spec]
+  rintro (h | h | ⟨t, h, hr⟩) <;> subst h
+  · simp [nodeState]
+  · simp [nodeState]
+  · unfold nodeState
+    cases hrr : reportedRole t with
+    | none => simp [hrr]
+    | some b => cases b <;> simp_all
+
+/-- CRLF texts: a trailing CR does not hide the role (first-line case, any continuation) -/
+theorem crlf_tolerated (rest : Bytes) :
+    reportedRole (masterLine ++ 13 :: 10 :: rest) = some true ∧
+    reportedRole (slaveLine ++ 13 :: 10 :: rest) = some false := by
+  constructor <;> rfl
+
+/-- `role:master` in a non-leading position of a line does not count -/
+theorem non_leading_ignored (b : UInt8) (hb : b ≠ 10) :
+    reportedRole (b :: masterLine) = none := by
+  have h1 : (b == 10) = false := by simp [hb]
+  simp [reportedRole, roleFrom, masterLine, slaveLine, ascii, List.isPrefixOf, h1]
+
+/-! ### 3. The selection -/
+
+/-- `masterFound` of an attempt ⇔ some probed position answered master -/
+theorem attempt_finds_master_iff (code : Code) (s : SyncNode) (o : Nat → Probe) :
+    (probeAll code getRedisNodeState s o).masterFound = true ↔
+      ∃ i, i < (hosts s).length ∧ answer (o i) = .master := by
+  unfold probeAll
+  rw [probeLoop_masterFound]
+  simp [answer_master_iff]
+
+/-- **chosen_is_master**: the returned `Source` is a known node whose probe, in the attempt that returned,
+answered `role:master`. -/
+theorem chosen_is_master (code : Code) (s : SyncNode) (out : Nat → Nat → Probe) (n : SyncNode) (k : Nat)
+    (h : getSlotState code s out = ⟨.ok n, k⟩) :
+    ∃ i, (hosts s)[i]? = some n.source ∧ answer (out (k - 1) i) = .master := by
+  obtain ⟨b, hk, _, _, hm, hn, _⟩ := rec_ok _ _ _ _ _ _ _ _ h
+  subst hk hn
+  have := probeLoop_source getRedisNodeState code (out b) (hosts s) []
+    { source := s.source, slaves := [], masterFound := false } (by simp) (by simpa [probeAll] using hm)
+  obtain ⟨j, hj, hmj⟩ := this
+  exact ⟨j, by simpa [probeAll] using hj, by simpa [answer_master_iff] using hmj⟩
+
+/-- **never_faulty_chosen**: a node none of whose probes in the returning attempt answered master — because
+it was unreachable, answered with an error, reported no role, or reported `role:slave` — is not the
+returned `Source`. -/
+theorem never_faulty_chosen (code : Code) (s : SyncNode) (out : Nat → Nat → Probe) (n : SyncNode) (k : Nat)
+    (h : getSlotState code s out = ⟨.ok n, k⟩) (host : String)
+    (hf : ∀ i, (hosts s)[i]? = some host → answer (out (k - 1) i) ≠ .master) : n.source ≠ host := by
+  obtain ⟨i, hi, hm⟩ := chosen_is_master code s out n k h
+  intro heq
+  exact hf i (heq ▸ hi) hm
+
+/-- with distinct node names: the chosen node's own probe answered master (so it was neither faulty nor a
+replica) -/
+theorem never_faulty_chosen_nodup (code : Code) (s : SyncNode) (out : Nat → Nat → Probe) (n : SyncNode) (k : Nat)
+    (h : getSlotState code s out = ⟨.ok n, k⟩) (hnd : (hosts s).Nodup) (i : Nat)
+    (hi : (hosts s)[i]? = some n.source) : answer (out (k - 1) i) = .master := by
+  obtain ⟨j, hj, hm⟩ := chosen_is_master code s out n k h
+  have : i = j := by
+    have h1 := List.getElem?_eq_some_iff.1 hi
+    have h2 := List.getElem?_eq_some_iff.1 hj
+    obtain ⟨hi', hie⟩ := h1
+    obtain ⟨hj', hje⟩ := h2
+    exact (List.getElem_inj hnd).1 (hie.trans hje.symm)
+  exact this ▸ hm
+
+/-- **known_nodes_preserved** (repaired code): `Source` plus `Slaves` of the answer is exactly the multiset
+of known nodes — nothing dropped, nothing invented, nothing duplicated. -/
+theorem known_nodes_preserved (s : SyncNode) (out : Nat → Nat → Probe) (n : SyncNode) (k : Nat)
+    (h : getSlotState .repaired s out = ⟨.ok n, k⟩) : (n.source :: n.slaves).Perm (hosts s) := by
+  obtain ⟨b, _, _, _, hm, hn, _⟩ := rec_ok _ _ _ _ _ _ _ _ h
+  subst hn
+  have := probeLoop_inv getRedisNodeState (out b) (hosts s) 0
+    { source := s.source, slaves := [], masterFound := false } [] (by simp [LoopInv])
+  unfold LoopInv at this
+  rw [probeAll] at hm
+  simpa [probeAll, hm] using this
+
+/-- **others_listed** (repaired code): every known node other than the returned `Source` is in `Slaves`. -/
+theorem others_listed (s : SyncNode) (out : Nat → Nat → Probe) (n : SyncNode) (k : Nat)
+    (h : getSlotState .repaired s out = ⟨.ok n, k⟩) :
+    ∀ host ∈ hosts s, host ≠ n.source → host ∈ n.slaves := by
+  intro host hh hne
+  have := (known_nodes_preserved s out n k h).mem_iff.2 hh
+  simpa [hne] using this
+
+/-- nothing is listed that was not known -/
+theorem slaves_are_known (s : SyncNode) (out : Nat → Nat → Probe) (n : SyncNode) (k : Nat)
+    (h : getSlotState .repaired s out = ⟨.ok n, k⟩) : ∀ host ∈ n.slaves, host ∈ hosts s := by
+  intro host hh
+  exact (known_nodes_preserved s out n k h).mem_iff.1 (by simp [hh])
+
+/-- the three clauses together, in the vocabulary of the spec -/
+theorem selection_correct (s : SyncNode) (out : Nat → Nat → Probe) (n : SyncNode) (k : Nat)
+    (h : getSlotState .repaired s out = ⟨.ok n, k⟩) :
+    Correct (hosts s) (fun i => answer (out (k - 1) i)) n :=
+  ⟨chosen_is_master _ s out n k h, others_listed s out n k h, slaves_are_known s out n k h⟩
+
+/-! ### 4. The retry loop is bounded and never settles for a replica -/
+
+/-- **bounded**: at least one and at most `maxRetries + 1` rounds of probing -/
+theorem bounded (code : Code) (s : SyncNode) (out : Nat → Nat → Probe) :
+    1 ≤ (getSlotState code s out).attempts ∧ (getSlotState code s out).attempts ≤ maxRetries + 1 := by
+  cases hr : getSlotState code s out with
+  | mk res k =>
+    cases res with
+    | ok n =>
+      obtain ⟨b, hk, _, hb, _⟩ := rec_ok _ _ _ _ _ _ _ _ hr
+      simp only; omega
+    | maxRetriesReached =>
+      obtain ⟨hk, _⟩ := rec_err _ _ _ _ _ _ _ hr
+      simp only; omega
+
+/-- **error_iff_no_master**: the error is returned exactly when no node answered master in any of the
+`maxRetries + 1` attempts — and then all of them were made. -/
+theorem error_iff_no_master (code : Code) (s : SyncNode) (out : Nat → Nat → Probe) :
+    (getSlotState code s out).result = .maxRetriesReached ↔
+      ∀ a, a ≤ maxRetries → ∀ i, i < (hosts s).length → answer (out a i) ≠ .master := by
+  constructor
+  · intro hres
+    cases hr : getSlotState code s out with
+    | mk res k =>
+      rw [hr] at hres
+      simp only at hres
+      subst hres
+      obtain ⟨_, hall⟩ := rec_err _ _ _ _ _ _ _ hr
+      intro a ha i hi hm
+      have := hall a (Nat.zero_le _) (by omega)
+      have hf := (attempt_finds_master_iff code s (out a)).2 ⟨i, hi, hm⟩
+      rw [hf] at this
+      exact Bool.noConfusion this
+  · intro hall
+    cases hr : getSlotState code s out with
+    | mk res k =>
+      cases res with
+      | maxRetriesReached => rfl
+      | ok n =>
+        obtain ⟨b, _, _, hb, hm, _⟩ := rec_ok _ _ _ _ _ _ _ _ hr
+        obtain ⟨i, hi, hmi⟩ := (attempt_finds_master_iff code s (out b)).1 hm
+        exact absurd hmi (hall b (by omega) i hi)
+
+theorem error_after_all_attempts (code : Code) (s : SyncNode) (out : Nat → Nat → Probe) (k : Nat)
+    (h : getSlotState code s out = ⟨.maxRetriesReached, k⟩) : k = maxRetries + 1 := by
+  obtain ⟨hk, _⟩ := rec_err _ _ _ _ _ _ _ h
+  omega
+
+/-- **returns_at_first_master**: no earlier attempt saw a master (the loop does not pass one by) -/
+theorem returns_at_first_master (code : Code) (s : SyncNode) (out : Nat → Nat → Probe) (n : SyncNode) (k : Nat)
+    (h : getSlotState code s out = ⟨.ok n, k⟩) :
+    ∀ a, a + 1 < k → ∀ i, i < (hosts s).length → answer (out a i) ≠ .master := by
+  obtain ⟨b, hk, _, _, _, _, hprev⟩ := rec_ok _ _ _ _ _ _ _ _ h
+  intro a ha i hi hm
+  have := hprev a (Nat.zero_le _) (by omega)
+  have hf := (attempt_finds_master_iff code s (out a)).2 ⟨i, hi, hm⟩
+  rw [hf] at this
+  exact Bool.noConfusion this
+
+/-- **succeeds_when_master_appears**: a master answer within the bound is found -/
+theorem succeeds_when_master_appears (code : Code) (s : SyncNode) (out : Nat → Nat → Probe)
+    (a i : Nat) (ha : a ≤ maxRetries) (hi : i < (hosts s).length) (hm : answer (out a i) = .master) :
+    ∃ n, (getSlotState code s out).result = .ok n := by
+  cases hr : (getSlotState code s out).result with
+  | ok n => exact ⟨n, rfl⟩
+  | maxRetriesReached => exact absurd hm ((error_iff_no_master code s out).1 hr a ha i hi)
+
+/-! ### 5. Deviation D21 (pinned code) and what the repair changes -/
+
+private def mI : Probe := .info (masterLine ++ [13, 10])
+private def sI : Probe := .info (slaveLine ++ [13, 10])
+
+/-- **counterexample_two_masters** (pinned code): nodes `a, b, c`; `a` and `b` answer master, `c` replica.
+The answer is `Source = b`, `Slaves = [c]`: the known node `a` is in neither. -/
+theorem counterexample_two_masters :
+    getSlotState .pinned ⟨"a", ["b", "c"]⟩ (fun _ i => if i < 2 then mI else sI) = ⟨.ok ⟨"b", ["c"]⟩, 1⟩ ∧
+    "a" ∈ hosts ⟨"a", ["b", "c"]⟩ ∧ "a" ≠ "b" ∧ "a" ∉ ["c"] := by decide
+
+/-- the repaired code on the same input keeps `a` -/
+theorem repaired_two_masters :
+    getSlotState .repaired ⟨"a", ["b", "c"]⟩ (fun _ i => if i < 2 then mI else sI) = ⟨.ok ⟨"b", ["a", "c"]⟩, 1⟩ := by
+  decide
+
+/-- If in every attempt that is made at most one position answers master, the pinned and the repaired
+code return the same thing: the repair changes nothing but the several-masters case. -/
+theorem repair_only_affects_several_masters (s : SyncNode) (out : Nat → Nat → Probe)
+    (huniq : ∀ a j k, j < (hosts s).length → k < (hosts s).length →
+      answer (out a j) = .master → answer (out a k) = .master → j = k) :
+    getSlotState .pinned s out = getSlotState .repaired s out := by
+  have hp : ∀ a, probeAll .pinned getRedisNodeState s (out a) = probeAll .repaired getRedisNodeState s (out a) := by
+    intro a
+    unfold probeAll
+    apply probeLoop_pinned_eq
+    · simp
+    · intro j k hj hk h1 h2
+      exact huniq a j k (by simpa using hj) (by simpa using hk) ((answer_master_iff _).2 h1) ((answer_master_iff _).2 h2)
+  unfold getSlotState getSlotStateWith
+  generalize maxRetries = d
+  generalize 0 = a
+  induction d generalizing a with
+  | zero => simp [recursiveGetSlotState, hp]
+  | succ d ih => simp [recursiveGetSlotState, hp, ih]
+
+/-- **others_listed_pinned_partial**: for the code as pinned the listing is complete when at most one node
+answers master per attempt (the full statement `others_listed` is false of it: `counterexample_two_masters`). -/
+theorem others_listed_pinned_partial (s : SyncNode) (out : Nat → Nat → Probe) (n : SyncNode) (k : Nat)
+    (huniq : ∀ a j k, j < (hosts s).length → k < (hosts s).length →
+      answer (out a j) = .master → answer (out a k) = .master → j = k)
+    (h : getSlotState .pinned s out = ⟨.ok n, k⟩) :
+    ∀ host ∈ hosts s, host ≠ n.source → host ∈ n.slaves := by
+  rw [repair_only_affects_several_masters s out huniq] at h
+  exact others_listed s out n k h
+
+/-! ### 6. The acceptor used by the driver is the spec -/
+
+/-- whatever `correct` accepts satisfies the three clauses of the property, and conversely -/
+theorem correct_iff (hs : List String) (ans : Nat → Answer) (n : SyncNode) :
+    correct hs ans n = true ↔ Correct hs ans n := by
+  unfold correct
+  simp only [Bool.and_eq_true, List.contains_iff_mem, List.all_eq_true, Bool.or_eq_true, beq_iff_eq]
+  constructor
+  · rintro ⟨⟨h1, h2⟩, h3⟩
+    refine ⟨?_, ?_, ?_⟩
+    · obtain ⟨j, hj, hm⟩ := (mem_masterNames ans n.source hs 0).1 h1
+      exact ⟨j, hj, by simpa using hm⟩
+    · intro h hh hne
+      rcases h2 h hh with h' | h'
+      · exact absurd h' hne
+      · exact h'
+    · exact h3
+  · rintro ⟨⟨j, hj, hm⟩, h2, h3⟩
+    refine ⟨⟨(mem_masterNames ans n.source hs 0).2 ⟨j, hj, by simpa using hm⟩, ?_⟩, h3⟩
+    intro h hh
+    by_cases hne : h = n.source
+    · exact Or.inl hne
+    · exact Or.inr (h2 h hh hne)
+
+/-- the model's own answer is accepted -/
+theorem selection_accepted (s : SyncNode) (out : Nat → Nat → Probe) (n : SyncNode) (k : Nat)
+    (h : getSlotState .repaired s out = ⟨.ok n, k⟩) :
+    correct (hosts s) (fun i => answer (out (k - 1) i)) n = true :=
+  (correct_iff _ _ _).2 (selection_correct s out n k h)
+
+/-! ### 7. Non-vacuity: the hypotheses above are inhabited by real runs -/
+
+/-- promoted replica: the old master `a` refuses connections, `b` is still a replica in attempts 0–1 and
+answers master from attempt 2 on; `c` sends garbage. Returned at the third attempt. -/
+example : getSlotState .repaired ⟨"a", ["b", "c"]⟩
+    (fun a i => if i = 0 then .connErr else if i = 1 then (if a < 2 then sI else mI) else .info [1, 2, 3]) =
+    ⟨.ok ⟨"b", ["a", "c"]⟩, 3⟩ := by decide
+
+/-- no master ever: error after exactly `maxRetries + 1 = 7` attempts -/
+example : getSlotState .repaired ⟨"a", ["b"]⟩ (fun _ i => if i = 0 then .cmdErr else sI) =
+    ⟨.maxRetriesReached, 7⟩ := by decide
+
+/-- master only in the last permitted attempt (index `maxRetries`) is still found -/
+example : getSlotState .repaired ⟨"a", ["b"]⟩ (fun a i => if a = 6 ∧ i = 1 then mI else sI) =
+    ⟨.ok ⟨"b", ["a"]⟩, 7⟩ := by decide
+
+/-- … and one attempt later is too late -/
+example : getSlotState .repaired ⟨"a", ["b"]⟩ (fun a i => if a = 7 ∧ i = 1 then mI else sI) =
+    ⟨.maxRetriesReached, 7⟩ := by decide
+
+/-- `role:master` after a `role:slave` line, or not at the start of a line, does not make a master -/
+example : answer (.info (slaveLine ++ [13, 10] ++ masterLine ++ [13, 10])) = .replica := by decide
+example : answer (.info (32 :: masterLine)) = .faulty := by decide
+example : answer (.info ([35, 32, 82, 13, 10] ++ masterLine ++ [13, 10])) = .master := by decide
+example : answer (.info []) = .faulty := by decide
+
+/-- the uniqueness hypothesis of the `_partial` theorem holds for an ordinary shard -/
+example : ∀ a j k, j < 3 → k < 3 →
+    answer ((fun (_ : Nat) i => if i = 1 then mI else sI) a j) = .master →
+    answer ((fun (_ : Nat) i => if i = 1 then mI else sI) a k) = .master → j = k := by
+  intro a j k hj hk
+  have : ∀ j, j < 3 → answer (if j = 1 then mI else sI) = .master → j = 1 := by decide
+  intro h1 h2
+  rw [this j hj h1, this k hk h2]
+
 end RSVerif.Properties.C20
